@@ -48,7 +48,8 @@ func (k Keeper) AllDeposits(ctx sdk.Context) (deposits []assetstype.DepositsBySt
 
 func (k Keeper) GetStakerAssetInfos(ctx sdk.Context, stakerID string) (assetsInfo []assetstype.DepositByAsset, err error) {
 	store := prefix.NewStore(ctx.KVStore(k.storeKey), assetstype.KeyPrefixReStakerAssetInfos)
-	iterator := sdk.KVStorePrefixIterator(store, []byte(stakerID))
+	// (with the separator: "0x..._0x6" is a textual prefix of "0x..._0x65")
+	iterator := sdk.KVStorePrefixIterator(store, []byte(stakerID+"/"))
 	defer iterator.Close()
 
 	ret := make([]assetstype.DepositByAsset, 0)
